@@ -693,6 +693,43 @@ Section Inside.
         apply (expected_mismatch stB t [TComma; TRightBracket] EB Hbad Hnc).
   Qed.
 
+  (* the same for a command of any kind that still needs arguments (a test, a control) *)
+  Theorem malformed_list_stop_incomplete : forall st f rest items tc t,
+    cur_is st f rest -> iscomplete f None = false ->
+    Forall (fun s => utf8_valid s = true) items -> (items = [] -> tc = false) ->
+    not_comment (t_kind t) = true ->
+    (if match items with [] => true | _ => tc end
+     then kind_mem (t_kind t) [TString] = false
+     else kind_mem (t_kind t) [TComma; TRightBracket] = false) ->
+    exists st', steps T st (mk TLeftBracket [91%N] :: open_items items tc) = Some st' /\ stops (process T st' t) EExpected.
+  Proof.
+    intros st f rest items tc t [Es Hc He Hfi] Hinc Hall Htc Hnc Hbad.
+    assert (PA : process T st (mk TLeftBracket [91%N]) = MTrue (list_open st)).
+    { unfold process, mk. cbn [t_kind]. rewrite He.
+      unfold m_command. rewrite Hc. unfold m_arguments, m_argument. cbn [t_kind]. rewrite Es.
+      fold (list_open st).
+      assert (EsA : p_stack (list_open st) = f :: rest) by (unfold list_open; pcbn; exact Es).
+      rewrite (cc_incomplete (list_open st) f rest false EsA Hinc). reflexivity. }
+    assert (IA : in_list (list_open st) f rest (p_brackets st) []) by (constructor; unfold list_open; pcbn; auto).
+    unfold open_items. cbn [steps]. rewrite PA.
+    destruct items as [|i0 items'].
+    - rewrite (Htc eq_refl). cbn [item_toks app steps]. eexists. split; [reflexivity|].
+      apply (expected_mismatch (list_open st) t [TString]); [reflexivity|exact Hbad|exact Hnc].
+    - destruct (items_steps T (i0 :: items') (list_open st) f rest (p_brackets st) [] ltac:(discriminate) Hall IA eq_refl)
+        as (stB & PB & IB & EB & LB & HB & RB).
+      rewrite steps_app, PB.
+      destruct tc.
+      + cbn [steps].
+        assert (PCm : process T stB (mk TComma [44%N]) = MTrue (with_expected (Some [TString]) stB)).
+        { destruct IB as [EsB HcB HbB HlB].
+          unfold process, mk. cbn [t_kind]. rewrite EB. cbn [kind_mem tkind_eqb orb].
+          unfold m_command. pcbn. rewrite HcB. unfold m_stringlist. pcbn. cbn [t_kind]. rewrite EsB. reflexivity. }
+        rewrite PCm. eexists. split; [reflexivity|].
+        apply (expected_mismatch _ t [TString]); [reflexivity|exact Hbad|exact Hnc].
+      + cbn [steps]. eexists. split; [reflexivity|].
+        apply (expected_mismatch stB t [TComma; TRightBracket] EB Hbad Hnc).
+  Qed.
+
   (* '{' after a command that takes no block *)
   Lemma block_after_flat : forall st f rest t,
     at_args st f rest -> t_kind t = TLeftCBracket -> d_non_deterministic_args (f_def f) = false ->
@@ -1351,6 +1388,59 @@ Section Texts.
         apply (ident_not_test T stC t _ _ d' CC KC); [reflexivity|exact Ek|rewrite LC; exact Eg|exact Hnt].
       + apply (reject_after_prefix T text _ t rest stC _ Hl' S4).
         apply (ident_unknown T stC t _ _ e CC KC); [reflexivity|exact Ek|rewrite LC; exact Eg].
+  Qed.
+
+  (* ---- malformed string lists in the arguments of a test that still needs arguments *)
+  Theorem malformed_string_list_in_test_rejected : forall text pre tn tl a0toks lb ltoks t rest L prev k d a dl args0 fN items tc,
+    wf_prefix T (map strip_pos pre) L prev k ->
+    fst (lex text) = pre ++ tn :: tl :: a0toks ++ lb :: ltoks ++ t :: rest ->
+    t_kind tn = TIdentifier -> get_command_instance T L (t_val tn) = inl d ->
+    d_type d = CControl -> d_accept_children d = true -> d_args d = [a] -> is_t1 a = true ->
+    t_kind tl = TIdentifier -> get_command_instance T L (t_val tl) = inl dl -> d_type dl = CTest ->
+    d_expected_first dl = None -> iscomplete (new_frame dl (at_of a)) None = false ->
+    Forall arg_ok args0 -> map strip_pos a0toks = flat_map arg_toks args0 ->
+    feed (new_frame dl (at_of a)) args0 L = FOk fN -> iscomplete fN None = false ->
+    strip_pos lb = mk TLeftBracket [91%N] -> map strip_pos ltoks = open_items items tc ->
+    Forall (fun s => utf8_valid s = true) items -> (items = [] -> tc = false) ->
+    not_comment (t_kind t) = true ->
+    (if match items with [] => true | _ => tc end
+     then kind_mem (t_kind t) [TString] = false
+     else kind_mem (t_kind t) [TComma; TRightBracket] = false) ->
+    parse T text = Reject EExpected (t_pos t) (length (t_val t)).
+  Proof.
+    intros text pre tn tl a0toks lb ltoks t rest L prev k d a dl args0 fN items tc
+           Hp Hl Hkn Hg Hty Hch Ha Ht1 Hkl Hgl Htyl Hef Hinc0 Hall Hat Hfeed Hinc Hlb Hlt Hu Htc Hnc Hbad.
+    destruct (prefix_ready T HT _ L prev k Hp) as (st & S1 & R1 & L1 & _).
+    assert (Htw : twf d = true) by (eapply gci_twf; eauto).
+    assert (Htwl : twf dl = true) by (eapply gci_twf; eauto).
+    destruct (after_name st L (t_val tn) d R1 L1 Hg ltac:(congruence)) as (st1 & P1 & C1 & K1 & Ld1 & E1).
+    assert (Hha : has_arguments d = true) by (unfold has_arguments; rewrite Ha; reflexivity).
+    rewrite Hty, Hch, Hha in E1. cbn in E1.
+    destruct (cna_t1_new L d (at_in (p_stack st)) a Htw Ha Ht1) as (N1 & EC & _).
+    pose proof (push_test T L st1 _ _ N1 a (t_val tl) dl K1 C1 ltac:(rewrite E1; reflexivity) Ld1 EC Hgl Htyl) as P2.
+    set (stL := with_stack (new_frame dl (at_of a) :: N1 :: p_stack st) (with_expected (d_expected_first dl) st1)) in *.
+    assert (EsL : p_stack stL = new_frame dl (at_of a) :: N1 :: p_stack st) by reflexivity.
+    rewrite (cc_incomplete stL _ _ false EsL Hinc0) in P2.
+    assert (HciL : cur_is stL (new_frame dl (at_of a)) (N1 :: p_stack st)).
+    { constructor; [exact EsL|unfold stL; pcbn; exact C1|unfold stL; pcbn; exact Hef|apply fi_new_frame; exact Htwl]. }
+    assert (LdL : p_loaded stL = L) by (unfold stL; pcbn; exact Ld1).
+    assert (Hmid : exists st2, steps T stL (flat_map arg_toks args0) = Some st2 /\ cur_is st2 fN (N1 :: p_stack st)).
+    { destruct args0 as [|a0 args'].
+      - cbn in Hfeed. inversion Hfeed; subst fN. exists stL. cbn [flat_map steps]. auto.
+      - rewrite <- LdL in Hfeed.
+        destruct (run_args_gen T (a0 :: args') stL _ _ fN HciL Hall ltac:(discriminate) Hfeed)
+          as (stX & ts & PX & SX & CX & EX & VX & FX & _).
+        rewrite (cc_incomplete stX fN _ ts SX Hinc) in PX. cbn [ostep] in PX.
+        exists stX. split; [exact PX|]. constructor; assumption. }
+    destruct Hmid as (st2 & S2 & Hci2).
+    destruct (malformed_list_stop_incomplete T st2 fN _ items tc t Hci2 Hinc Hu Htc Hnc Hbad) as (st3 & S3 & X).
+    assert (Etn : strip_pos tn = mk TIdentifier (t_val tn)) by (destruct tn; cbn in *; unfold strip_pos, mk; cbn; congruence).
+    assert (Etl : strip_pos tl = mk TIdentifier (t_val tl)) by (destruct tl; cbn in *; unfold strip_pos, mk; cbn; congruence).
+    assert (Hl' : fst (lex text) = (pre ++ tn :: tl :: a0toks ++ lb :: ltoks) ++ t :: rest).
+    { rewrite Hl. repeat (rewrite <- app_assoc; cbn [app]). reflexivity. }
+    apply (reject_after_prefix T text _ t rest st3 EExpected Hl'); [|exact X].
+    rewrite map_app, steps_app, S1. cbn [map steps]. rewrite Etn, P1, Etl, P2.
+    rewrite map_app, steps_app, Hat, S2. cbn [map]. rewrite Hlb, Hlt. exact S3.
   Qed.
 
   (* ---- the arguments of a test: a string, number or tag that the test does not take at that point (an unknown
